@@ -249,13 +249,15 @@ class _ReadSourceGenerator:
             read_type += ".type"
             field_type = field_type.type
 
+        value_type = "_t"
         if issubclass(field_type, Char):
-            field_type = field_type.cs.uint8
-            lookup = "cls.cs.uint8"
+            # Read through the char type itself so the bit buffer starts a new unit like the interpreted reader does
+            # (BitBuffer converts the bytes to an integer), but hand out the value as an integer
+            value_type = "cls.cs.uint8"
 
         template = f"""
         _t = {lookup}
-        r["{field._name}"] = type.__call__(_t, bit_reader.read({read_type}, {field.bits}))
+        r["{field._name}"] = type.__call__({value_type}, bit_reader.read({read_type}, {field.bits}))
         """
 
         yield dedent(template)
